@@ -67,9 +67,9 @@ def check(run) -> None:
     if len(behaviours) < min(nb, 5):
         from ..tlc import TLCError
         raise TLCError(f"Turn simulation produced only {len(behaviours)} behaviours")
-    variants = [(0, "zero", False), (1, "huge", False), (run.seed * 7919 + 12345, "random", True)]
+    variants = [(0, "zero", False), (1, "huge", False), (run.seed * 7919 + 12345, "random", True), (2, "random", False), (3, "zero", False)]
     if not q:
-        variants += [(2, "random", False), (4242, "zero", True)]
+        variants += [(4, "random", False), (4242, "zero", True), (6, "huge", False)]
     jobs, cases = [], []
     for bi, h in enumerate(behaviours):
         case = {"h": h, "world": bi + run.seed * 1000}
@@ -92,7 +92,7 @@ def check(run) -> None:
     for bi, runs in sorted(by_b.items()):
         evX, evY, evZ = [], [], []
         for o in runs:
-            for tag in ("cold", "warm"):
+            for tag in ("cold", "warm", "warm2"):
                 for ob in o["obs"][tag]:
                     k, t = ob[0], ob[1]
                     line = ob[2] if len(ob) > 2 else None
@@ -146,7 +146,7 @@ def replay(rep) -> int:
         if not o["ok"]:
             print(o["err"])
             return 2
-        for tag in ("cold", "warm"):
+        for tag in ("cold", "warm", "warm2"):
             for ob in o["obs"][tag]:
                 toks.setdefault(ob[0], set()).add(ob[1])
     bad = sorted(k for k, s in toks.items() if len(s) > 1)
